@@ -164,8 +164,41 @@ def check_origin(ctx, P, fk, what, value_of, need="fresh-or-param", inline_depth
                     if not (m_ and int(m_.group(1)) >= 32):
                         ok = False
                         detail.append("draw of type `%s` carries fewer than 32 random bytes" % ty)
+                if d[0] == "fill":
+                    n_ = _fill_len(d[1])
+                    if n_ is None or n_ < 32:
+                        ok = False
+                        detail.append("the buffer the generator fills is %s - fewer than 32 random bytes are guaranteed" % ("%d byte(s) long" % n_ if n_ is not None else "of a length that is not a compile-time constant (it depends on run-time or per-group sizes)"))
     ctx.ob("E6.origin", _PFX + "%s/%s" % (fk, what), ok, "ephemeral `%s`: %s" % (what, "; ".join(detail)), where=where(f), sample={"fn": fk, "value": show(strip_sites(v), 6)[:300]})
     return v
+
+
+def _fill_len(s):
+    """Number of bytes a `fill_bytes` / `try_fill_bytes` / `fill` draw writes, when it is a constant; next_u64 / next_u32: 8 / 4."""
+    n = B.cname(s)
+    if n.endswith("next_u64"):
+        return 8
+    if n.endswith("next_u32"):
+        return 4
+    args = s.a[2] if s.op == "mutcall" else s.a[1]
+    if len(args) < 2:
+        return None
+    d = args[1]
+    sf = B.slice_form(d)
+    try:
+        if sf is not None:
+            base, st, en = sf
+            l = B._lin(("sub", en, st))
+        else:
+            l = B._lin(B.int_form(T("len", B.peel(d))))
+    except Exception:
+        return None
+    if l is None:
+        return None
+    c, terms = l
+    if any(v for v in terms.values()):
+        return None
+    return c
 
 
 def run(ctx):
